@@ -85,6 +85,27 @@ def build_harness(name, tags="verif", go="go", test=False, pkg=None):
     return out_bin
 
 
+def broken_theorems(log):
+    """map `error: File.lean:LINE:COL: msg` lines of a lake log to the enclosing theorem names"""
+    out = []
+    for m in re.finditer(r"error: (\S+?\.lean):(\d+):\d+: (.*)", log):
+        path, line, msg = m.group(1), int(m.group(2)), m.group(3)
+        name = None
+        try:
+            src = open(os.path.join(LEAN, path), encoding="utf-8").read().split("\n")
+            for i in range(min(line, len(src)) - 1, -1, -1):
+                mm = re.match(r"\s*(?:private\s+)?(?:theorem|lemma|def|example)\s+(\S+)?", src[i])
+                if mm:
+                    name = mm.group(1) or "example"
+                    break
+        except OSError:
+            pass
+        item = "%s:%d %s — %s" % (path, line, name or "?", msg[:160])
+        if item not in out:
+            out.append(item)
+    return out
+
+
 def driver_path():
     return os.path.join(LEAN, ".lake", "build", "bin", "knxdrv")
 
